@@ -52,6 +52,7 @@ func (p *Provider) start(ctx context.Context, ammoFile afero.File) error {
 	var ammoNum, passNum int
 	for {
 		passNum++
+		passStartAmmoNum := ammoNum
 		scanner := bufio.NewScanner(ammoFile)
 		if p.Config.MaxAmmoSize != 0 {
 			var buffer []byte
@@ -86,6 +87,10 @@ func (p *Provider) start(ctx context.Context, ammoFile afero.File) error {
 		}
 		if p.Limit != 0 && ammoNum >= p.Limit {
 			break
+		}
+		if ammoNum == passStartAmmoNum {
+			// The whole pass gave no ammo (empty file, nothing matches chosen cases): one more pass gives none either.
+			return errors.New("no ammo in file")
 		}
 		_, err = ammoFile.Seek(0, 0)
 		if err != nil {
